@@ -68,7 +68,7 @@ ALIASES = [gen.ALIASES[m] for m in gen.METRICS]
 THR_AT = [("threshold_at_" + m, m) for m in RATES] + [("threshold_at_far", "far"), ("threshold_at_frr", "frr")]
 GROUP_NAMES = ["group_tpr", "group_fnr", "group_tnr", "group_fpr", "group_topr", "group_tonr", "group_tar",
                "group_frr", "group_trr", "group_far", "group_acceptance_rate", "group_rejection_rate"]
-CALLABLES = ["scalar", "scalar", "pyfloat", "vec", "vec", "mat", "mat", "empty", "empty2", "int", "nanmix", "nanmix", "nancol"]
+CALLABLES = ["scalar", "scalar", "pyfloat", "vec", "vec", "mat", "mat", "empty", "empty2", "int", "nanmix", "nanmix", "nancol", "vecbuf"]
 
 
 def n_cases(tier):
@@ -369,8 +369,21 @@ def _make_metric(spec, kwargs):
         return name, (lambda s: getattr(s, name)(**kwargs)), None
     if t == "groupwise":
         return groupwise(name), (lambda s: np.stack([getattr(s[g], name)(**kwargs) for g in s.groups], axis=0)), None
-    fn = _pure_callable(name)
-    rec = _RecMetric(fn)
+    if name == "vecbuf" and t != "groupwise_callable":
+        # (groupwise() collects the per-group values in a list before stacking them: a shared work array is the caller's
+        # mistake there, not the library's, so the groupwise form uses the fresh-array twin)
+        # a metric that fills and returns ONE preallocated array (out=-style, as vectorised user code does): a replicate row
+        # is the value at the time of the call, whatever the array holds later.  The harness side uses the fresh-array twin.
+        fn = _pure_callable("vec")
+        work = np.empty(3)
+
+        def into_buffer(s_, *a_, **k_):
+            work[:] = fn(s_, *a_, **k_)
+            return work
+        rec = _RecMetric(into_buffer)
+    else:
+        fn = _pure_callable("vec" if name == "vecbuf" else name)
+        rec = _RecMetric(fn)
     if t == "groupwise_callable":
         return groupwise(rec), (lambda s: np.stack([fn(s[g], **kwargs) for g in s.groups], axis=0)), rec
     return rec, (lambda s: fn(s, **kwargs)), rec
